@@ -71,7 +71,7 @@ pub fn cases(seed: u64, n_random: usize) -> Vec<Case> {
         // NB: a FIRST operand called rg/git is, by design, a command to launch; only later positions are file names
         let mut spec = base(vec!["--no-gitconfig".into(), "--width".into(), "100".into(), "--paging".into(), "never".into(), a.into(), b.into()]);
         spec.files = vec![(a.into(), Blob::from("one\n")), (b.into(), Blob::from("two\n"))];
-        spec.child = Some(ChildSetup { names: vec!["git".into(), "diff".into()], stdout: diff.clone().into(), stderr: Blob::default(), stderr_first: false, exit: 1, git_version: "git version 2.45.1".into() });
+        spec.child = Some(ChildSetup { names: vec!["git".into(), "diff".into()], stdout: diff.clone().into(), stderr: Blob::default(), stderr_first: false, exit: 1, git_version: "git version 2.45.1".into(), linger_ms: 0 });
         out.push(Case { name: format!("two files {} {}", a, b), spec, expect_exit: 1, tokens: tokens.clone(), group: String::new(), must_highlight: false });
     }
     // delta as the child of `git show HEAD:file` / `git blame file` / `git grep`: the real scan of the
@@ -147,7 +147,7 @@ pub fn cases(seed: u64, n_random: usize) -> Vec<Case> {
             args.extend(cmd.iter().map(|x| x.to_string()));
             let mut spec = base(args);
             let text = "On branch T000900\nChanges not staged for commit:\n\tmodified:   src/T000901.rs\n\nno changes added to commit\nsrc/main.rs\n";
-            spec.child = Some(ChildSetup { names: vec!["git".into(), "rg".into()], stdout: text.to_string().into(), stderr: simcore::text::Blob::default(), stderr_first: false, exit: 0, git_version: "git version 2.45.1".into() });
+            spec.child = Some(ChildSetup { names: vec!["git".into(), "rg".into()], stdout: text.to_string().into(), stderr: simcore::text::Blob::default(), stderr_first: false, exit: 0, git_version: "git version 2.45.1".into(), linger_ms: 0 });
             spec.plan.scan_delay_ms = delay;
             out.push(Case { name: format!("launched command that is not parsed: {:?}, paging {}", cmd, paging), spec, expect_exit: 0, tokens: vec![900, 901], group: String::new(), must_highlight: false });
         }
